@@ -26,9 +26,15 @@ def gVal (st : State) (e : Addr × Int) : State :=
                         rel := e.1 :: st1.rel, supply := st1.supply + e.2 }
   setBal st2 st2.pool (balOf st2 st2.pool + e.2)
 
+/-- write the exported signing state (signing infos, missed-block entries) over the fresh one -/
+def gOvr (g : Genesis) (st : State) : State :=
+  { st with sign := g.signing.foldl (fun m e => aset m e.1 e.2) st.sign,
+            missedBits := g.missed.foldl (fun m e => bitSet m e.1.1 e.1.2 e.2) st.missedBits }
+
 /-- the genesis state before the first validator-set update -/
 def gPre (g : Genesis) : State :=
-  mint (g.vals.foldl gVal (g.accs.foldl gAcc (gInit g))) (g.vals.foldl gVal (g.accs.foldl gAcc (gInit g))).daoAcc g.daoTokens
+  mint (gOvr g (g.vals.foldl gVal (g.accs.foldl gAcc (gInit g))))
+    (gOvr g (g.vals.foldl gVal (g.accs.foldl gAcc (gInit g)))).daoAcc g.daoTokens
 
 theorem genesis_fst (g : Genesis) :
     (genesis g).1 = gPre g ∨
@@ -118,6 +124,9 @@ theorem gPre_surplus (g : Genesis) (hg : GenesisOK g) :
   have h1' : GValInv g (g.accs.foldl gAcc (gInit g)) :=
     ⟨h1.balAsc, by rw [h1.vals]; exact keysAsc_nil, by rw [h1.poolBal]; simp [stakeSum, h1.vals], h1.pool, h1.daoAcc⟩
   have h2 := gVal_fold g g.vals hg.valsNodup _ h1' (by intro e _; rw [h1.vals]; rfl)
+  -- the exported signing state touches neither balances nor validators
+  have h2 : GValInv g (gOvr g (g.vals.foldl gVal (g.accs.foldl gAcc (gInit g)))) :=
+    ⟨h2.balAsc, h2.valsAsc, h2.backs, h2.pool, h2.daoAcc⟩
   unfold gPre
   refine ⟨?_, (mint_frame _ _ _).pool.trans h2.pool⟩
   rw [balOf_mint h2.balAsc, h2.daoAcc, stakeSum_congr (mint_frame _ _ _).vals, h2.backs]
